@@ -314,6 +314,42 @@ func (a *Announce) DeleteBalancer(name string) {
 	}
 }
 
+// DeleteBalancerIP deletes a single address from the set of addresses we
+// should announce for name. It returns true if the address was announced.
+func (a *Announce) DeleteBalancerIP(name string, ip net.IP) bool {
+	a.Lock()
+	defer a.Unlock()
+
+	advs, ok := a.ips[name]
+	if !ok {
+		return false
+	}
+	for i, cur := range advs {
+		if !cur.ip.Equal(ip) {
+			continue
+		}
+		if len(advs) == 1 {
+			delete(a.ips, name)
+		} else {
+			remaining := make([]IPAdvertisement, 0, len(advs)-1)
+			remaining = append(remaining, advs[:i]...)
+			remaining = append(remaining, advs[i+1:]...)
+			a.ips[name] = remaining
+		}
+		a.ipRefcnt[cur.ip.String()]--
+		if a.ipRefcnt[cur.ip.String()] > 0 {
+			return true
+		}
+		for _, client := range a.ndps {
+			if err := client.Unwatch(cur.ip); err != nil {
+				level.Error(a.logger).Log("op", "unwatchMulticastGroup", "error", err, "ip", cur.ip, "interface", client.intf, "msg", "failed to unwatch NDP multicast group for IP")
+			}
+		}
+		return true
+	}
+	return false
+}
+
 // AnnounceName returns true when we have an announcement under name.
 func (a *Announce) AnnounceName(name string) bool {
 	a.RLock()
